@@ -733,6 +733,7 @@ func init() {
 				maxK, maxN = 8, 4
 			}
 			mk("VC15DumbMemGetSet")
+			mk("VC15DumbMemPutN")
 			mk("VC15DumbIO")
 			for k := 0; k <= maxK; k++ {
 				mk("VC15DumbMemPut", k)
